@@ -3,6 +3,7 @@ restricted only by the support of its law, so a postcondition proved over it hol
    np.random.normal(mu, sigma)        any real            np.random.uniform(a, b) / numpy.random.uniform   a value in [a, b] (a <= b)
    np.random.random()                 in [0, 1)           np.random.randint(lo, hi)                        an integer in [lo, hi)
    np.random.choice(xs[, p=w])        an element of xs (xs: sorted set of strings, or a list / array)  - requires xs non-empty
+   np.random.choice(list, p=float array)   ValueError unless the weights are a probability vector over the list, else an element of it
    random.uniform / random.randrange  likewise (stdlib generator)
 Which generator (NumPy's global one or the stdlib's) is consumed is an effect, checked by pyvc/effects.py."""
 import ast
@@ -49,6 +50,24 @@ def rng(self, e, st, spec):
             k = V.fresh("choice", I)
             st.assume(0 <= k, k < s_["n"], s_["mem"][s_["seq"][k]])
             return wrap(s_["seq"][k])
+        pk = [kw_.value for kw_ in e.keywords if kw_.arg == "p"]
+        w = self.ev(pk[0], st, spec) if isinstance(xs, SList) and pk else None
+        if isinstance(w, Arr) and w.rank == 1 and w.data.sort().range() == R:
+            # choice(xs, p=w) with w a float array: ValueError unless w is a probability vector over xs (no negative entry, sum 1, one
+            # weight per element); otherwise an element of xs (NaN entries: S2).  (Weights held as a Python list / None: the older,
+            # coarser model below - an element of xs, the weights' validity not examined.)
+            j = V.fresh("j", I)
+            f = self.psum_fun("f64", st)
+            valid = z3.And(xs.length > 0, w.dims[0] == xs.length, z3.ForAll(j, z3.Implies(z3.And(0 <= j, j < xs.length), w.data[j] >= 0)),
+                           f(w.data, xs.length) == 1)
+            bad = st.clone()
+            bad.assume(z3.Not(valid))
+            self.pending_raises.append(("ValueError", bad))
+            st.assume(valid)
+            k = V.fresh("choice", I)
+            st.assume(0 <= k, k < xs.length)
+            self.last_choice_index = k
+            return xs.get(k)
         if isinstance(xs, SList):
             self.oblige(st, xs.length > 0, f"choice-from-nonempty@{e.lineno}:{e.col_offset}", "exception-freedom", e.lineno, ast.unparse(e))
             k = V.fresh("choice", I)
